@@ -90,5 +90,8 @@ def user_vars(k):
             if s.startswith("."):
                 continue
             if s not in snap:
-                snap[s] = [canon(v), type(v).__name__]
+                tag = type(v).__name__
+                if hasattr(v, "dtype"):
+                    tag += ":" + str(v.dtype) + (str(tuple(v.shape)) if getattr(v, "ndim", 0) > 1 else "")
+                snap[s] = [canon(v), tag]
     return snap
